@@ -23,9 +23,14 @@ def operand(rng, w, sym, kind, x=None, kinds=("D", "F", "int")):
         return U(sym), ("u", sym)
     if x is None:
         x = rand_fraction(rng, allow_zero=False, small=True)
-    e, _ = enc_amount(rng, x, kinds)
     if kind == "n":
+        # plain numbers of every numeric kind, floats included (exact value)
+        if rng.random() < 0.2:
+            f = rng.choice([0.1, 2.5, 1e-3, 7.25, 3.0, 1e6, 0.3])
+            return ["fl", f.hex()], ("n", F(f))
+        e, _ = enc_amount(rng, x, kinds + ("SD",) if False else kinds)
         return e, ("n", F(x))
+    e, _ = enc_amount(rng, x, kinds)
     return Q(e, sym), ("q", stored(w, x, sym), sym)
 
 
